@@ -712,7 +712,53 @@ fn finding(kind: &str, seed: u64, d: (usize, String, String)) -> Found {
     }
 }
 
+
+/// The thread-local fault configuration must be REPLACED by `set_config`, never merged: whatever configuration a previous
+/// simulation installed on this thread, after `set_config(B)` every `should_buggify` decision and the number of words it
+/// draws are those of a fresh thread that only ever saw `set_config(B)` (seed C20-1: an in-place `extend` kept the
+/// probabilities of fault ids B does not list).  Each (A, B) pair runs on its own fresh thread.
+fn config_isolation(seed: u64) -> Option<Found> {
+    use redis_sim::buggify::{self, FaultConfig, ALL_FAULTS};
+    fn preset(n: &str) -> FaultConfig {
+        match n { "disabled" => FaultConfig::disabled(), "calm" => FaultConfig::calm(), "moderate" => FaultConfig::moderate(), "chaos" => FaultConfig::chaos(), _ => FaultConfig::new() }
+    }
+    fn trace(first: Option<&'static str>, second: &'static str, seed: u64) -> Vec<String> {
+        std::thread::spawn(move || {
+            if let Some(a) = first { buggify::set_config(preset(a)); }
+            buggify::set_config(preset(second));
+            buggify::reset_stats();
+            let mut out = Vec::new();
+            for id in ALL_FAULTS.iter() {
+                let mut rng = SimulatedRng::new(seed ^ 0x5eed);
+                let mut fired = 0u32;
+                for _ in 0..400 { if buggify::should_buggify(&mut rng, id) { fired += 1; } }
+                // the generator's position afterwards tells how many words the 400 checks drew
+                let pos = { use redis_sim::io::Rng; rng.next_u64() };
+                out.push(format!("{}: fired {} of 400, generator then yields {}", id, fired, pos));
+            }
+            out
+        }).join().unwrap_or_default()
+    }
+    const P: [&str; 5] = ["disabled", "calm", "moderate", "chaos", "new"];
+    for b in P {
+        let fresh = trace(None, b, seed);
+        for a in P {
+            if a == b { continue; }
+            let after = trace(Some(a), b, seed);
+            if let Some(k) = (0..fresh.len().max(after.len())).find(|k| fresh.get(*k) != after.get(*k)) {
+                return Some(Found {
+                    input: format!("thread 1: set_config({}); thread 2: set_config({}) then set_config({}); on each thread 400 x should_buggify(SimulatedRng::new({}), id) for every fault id", b, a, b, seed ^ 0x5eed),
+                    observed: format!("after {} then {}: {}  |  fresh thread with {} only: {}", a, b, after.get(k).cloned().unwrap_or_default(), b, fresh.get(k).cloned().unwrap_or_default()),
+                    required: "identical decisions and generator position: a simulation's fault configuration is the one it installed, not a mixture with what ran before on the thread".into(),
+                });
+            }
+        }
+    }
+    None
+}
+
 pub fn search(_pid: &str, _oid: &str, seed: u64) -> Option<Found> {
+    if let Some(f) = config_isolation(seed) { return Some(f); }
     // fresh processes first (they run while this process computes its own two dumps)
     let exe = std::env::current_exe().ok();
     let mut kids = Vec::new();
